@@ -49,6 +49,24 @@ pub fn huge_block_tree() -> (Opts, Tree) {
     (Opts { block: 64 << 20, ..Opts::defaults() }, t)
 }
 
+/// A block size between the generated range (up to 2 KiB) and the default (20 MiB), and not
+/// a round one: 1 500 000 bytes, with files of several blocks, of exactly two blocks, of one
+/// block plus a byte, and just over the small-file cap.
+pub fn odd_block_size_tree() -> (Opts, Tree) {
+    let mut t = Tree::empty_root(Meta { mode: 0o755, ..plain_meta() });
+    let m = plain_meta();
+    for (name, pool, len) in [
+        ("four-mib-plus-3", 3u8, (4u32 << 20) + 3),
+        ("two-blocks-exactly", 4, 3_000_000),
+        ("one-block-plus-1", 5, 1_500_001),
+        ("just-over-the-cap", 6, (1u32 << 20) + 1),
+        ("small", 7, 33),
+    ] {
+        t.0.insert(format!("/{name}"), Node { kind: Kind::File { pool, len }, meta: m });
+    }
+    (Opts { block: 1_500_000, ..Opts::defaults() }, t)
+}
+
 /// One very large file (272 MiB, fourteen blocks with default options) between small files
 /// that sort before and after it.
 pub fn huge_file_tree() -> (Opts, Tree) {
